@@ -118,7 +118,15 @@ func c19Run(c c19Case, o *hx.Obs) {
 		o.Failf("harness|schema-rejected", "generated schema does not load: %v\n%s", err, c.Module.Yang())
 		return
 	}
-	ns := "urn:" + c.Module.Name
+	ns := c.Module.Namespace()
+	switch c.Module.NS {
+	case "":
+		o.Class("namespace=urn")
+	case "-":
+		o.Class("namespace=none")
+	default:
+		o.Class("namespace=needs-escaping")
+	}
 	cls := textClass(c.Data)
 	o.Class("writer=%s", c.Writer)
 	o.Class("text=%s", cls)
@@ -169,6 +177,10 @@ func c19Run(c c19Case, o *hx.Obs) {
 		}
 		o.Failf(sig(clause), "%v\n%s", perr, text)
 		return
+	}
+	if c.Module.NS == "-" && x.NS == c.Module.Name {
+		// a module that states no namespace: its name standing in for one is as good as none
+		ns = x.NS
 	}
 	if x.NS != ns {
 		o.Failf(sig("namespace"), "root element <%s> is in namespace %q, want %q\n%s", x.Name, x.NS, ns, text)
@@ -231,6 +243,7 @@ var c19XML = hx.Register(&hx.Check[c19Case]{
 		o := dm.DefaultGen()
 		o.Types = []string{"int8", "int32", "int64", "uint8", "uint64", "decimal64", "string", "string", "boolean", "enumeration", "bits", "identityref", "binary", "empty"}
 		m := dm.GenModule(t, o)
+		m.NS = rapid.SampledFrom([]string{"", "", "", "urn:x?a=1&b=2", "urn:it's", "-"}).Draw(t, "namespace")
 		data := dm.GenTree(t, m.Root(), dm.TreeOpts{MaxEntries: 3, PresentPct: 75, EasyKeys: true})
 		replaced := 0
 		data = xmlRepresentable(data, &replaced).(dm.Tree)
